@@ -40,6 +40,9 @@ from kafe2.fit import (
     XYParametricModel,
 )
 from kafe2.fit._base import ModelFunctionBase
+from kafe2.fit.histogram.cost import HistCostFunction_Chi2, HistCostFunction_GaussApproximation, HistCostFunction_NegLogLikelihood
+from kafe2.fit.indexed.cost import IndexedCostFunction_Chi2, IndexedCostFunction_GaussApproximation, IndexedCostFunction_NegLogLikelihood
+from kafe2.fit.xy.cost import XYCostFunction_Chi2, XYCostFunction_GaussApproximation, XYCostFunction_NegLogLikelihood
 from kafe2.fit.representation.error.common_error_tools import MatrixYamlLoader
 from vlib import dsl, gen
 from vlib.fitcase import Member
@@ -198,11 +201,16 @@ def floors(tier):
             "wwr.content": 5 if q else 100,
             "wwr.size": 5 if q else 100,
             "state.results": 4 if q else 100,
+            "post.op": 30 if q else 600,
+            "post.sources": 20 if q else 400,
+            "post.total_error": 40 if q else 800,
+            "post.parameters": 30 if q else 600,
+            "post.cost": 30 if q else 600,
         },
-        "ops": ["to_file", "from_file", "to_file.second", "do_fit", "asymmetric_errors", "save_state", "load_state", "disable_error", "fix_parameter", "limit_parameter", "add_parameter_constraint", "add_matrix_parameter_constraint", "add_error", "add_matrix_error"],
+        "ops": ["to_file", "from_file", "to_file.second", "do_fit", "asymmetric_errors", "save_state", "load_state", "disable_error", "fix_parameter", "limit_parameter", "add_parameter_constraint", "add_matrix_parameter_constraint", "add_error", "add_matrix_error", "set_parameter_values", "set_all_parameter_values", "post.disable_error", "post.enable_error", "post.add_error", "post.set_parameter_values"],
         "reach": ["%s:%s" % a for a in ANCHORS],
         "strata": sorted(set("|".join(str(x) for x in p[:3] if x is not None) for p in PLAN)) + FEATURE_STRATA,
-        "sets": {"fit_type_cost": 12 if q else 30, "source_config": 12 if q else 30},
+        "sets": {"fit_type_cost": 12 if q else 30, "source_config": 12 if q else 30, "cost_option": 1 if q else 4},
         "distinct_nontrivial": 120 if q else 4000,
     }
 
@@ -224,6 +232,13 @@ FEATURE_STRATA = [
     "feature|parameter-limited",
     "feature|model-library-name",
     "feature|dea-iterative",
+    "feature|source-nearly-constant-vector",
+    "feature|fixed-value-changed-after-fixing",
+    "feature|cost-object-default-options",
+    "feature|cost-object-nondefault-options",
+    "feature|post-load-source-toggled",
+    "feature|post-load-model-source-toggled",
+    "feature|post-load-source-added",
 ]
 
 
@@ -457,6 +472,60 @@ def custom_source(c):
     return "\n".join(lines) + "\n"
 
 
+# cost function OBJECTS: constructor arguments that select the formula of a canonical id (vlib.ref.COST_ALIASES values), and the
+# documented options of each class with their non-default value
+COST_CLASSES = {
+    "xy": {"chi2": XYCostFunction_Chi2, "nll": XYCostFunction_NegLogLikelihood, "ga": XYCostFunction_GaussApproximation},
+    "indexed": {"chi2": IndexedCostFunction_Chi2, "nll": IndexedCostFunction_NegLogLikelihood, "ga": IndexedCostFunction_GaussApproximation},
+    "hist": {"chi2": HistCostFunction_Chi2, "nll": HistCostFunction_NegLogLikelihood, "ga": HistCostFunction_GaussApproximation},
+}
+COST_BASE = {
+    "chi2_cov": ("chi2", {"errors_to_use": "covariance"}),
+    "chi2_pw": ("chi2", {"errors_to_use": "pointwise"}),
+    "chi2_noerr": ("chi2", {"errors_to_use": None, "add_determinant_cost": False}),
+    "nll_poisson": ("nll", {"data_point_distribution": "poisson", "ratio": False}),
+    "nllr_poisson": ("nll", {"data_point_distribution": "poisson", "ratio": True}),
+    "nll_gauss": ("nll", {"data_point_distribution": "gaussian", "ratio": False}),
+    "nllr_gauss": ("nll", {"data_point_distribution": "gaussian", "ratio": True}),
+    "ga_cov": ("ga", {"errors_to_use": "covariance"}),
+    "ga_pw": ("ga", {"errors_to_use": "pointwise"}),
+}
+# option -> non-default value; per class family (the xy classes additionally take axes_to_use, XYCostFunction_GaussApproximation has no fast_math)
+COST_OPTIONS = {
+    "chi2": {"add_determinant_cost": False, "add_constraint_cost": False, "fallback_on_singular": False, "fast_math": True},
+    "nll": {},
+    "ga": {"add_determinant_cost": False, "add_constraint_cost": False, "fast_math": True},
+}
+# where a lost option shows in obs_cost_function
+COST_OPTION_PATHS = {
+    "add_determinant_cost": ("add_determinant_cost", "_add_determinant_cost_ga"),
+    "add_constraint_cost": ("_add_constraint_cost",),
+    "fallback_on_singular": ("_fail_on_no_matrix", "_fail_on_no_errors"),
+    "fast_math": ("fast_math", "function", "arg_names"),
+    "axes_to_use": ("arg_names",),
+}
+
+
+def cost_options_for(ftype, fid):
+    fam = COST_BASE[fid][0]
+    opts = dict(COST_OPTIONS[fam])
+    if fid == "chi2_noerr":
+        opts = {"add_constraint_cost": False}
+    if ftype == "xy":
+        if fam == "ga":
+            opts.pop("fast_math", None)
+        if fid in NEEDS_ERRORS or fid in GAUSS_APPROX:  # the others do not read any uncertainty
+            opts["axes_to_use"] = "y"
+    return opts
+
+
+def make_cost_object(ftype, co):
+    fam, base = COST_BASE[co["fid"]]
+    kw = dict(base)
+    kw.update(co.get("options", {}))
+    return COST_CLASSES[ftype][fam](**kw)
+
+
 class FitUnderTest:
     def __init__(self, case):
         self.case = case
@@ -472,9 +541,13 @@ class FitUnderTest:
             kw = {"minimizer": case.get("minimizer")}
             if case.get("dea"):
                 kw["dynamic_error_algorithm"] = case["dea"]
-            self.fit = XYFit([np.array(s["x"], dtype=float), np.array(s["y"], dtype=float)], model_function=case["library"], cost_function=s["cost"], **kw)
+            cost = make_cost_object(t, case["cost_object"]) if case.get("cost_object") else s["cost"]
+            self.fit = XYFit([np.array(s["x"], dtype=float), np.array(s["y"], dtype=float)], model_function=case["library"], cost_function=cost, **kw)
         else:
             self.member = Member(case["spec"], [], minimizer=case.get("minimizer"), dea=case.get("dea"))
+            if case.get("cost_object"):
+                # same fit, the cost function handed over as an object instead of its name (nothing has been applied to the member yet)
+                self.member.fit = dsl.build_fit(dict(self.member.spec, cost=make_cost_object(t, case["cost_object"])))
             self.fit = self.member.fit
             self.spec = self.member.spec
         if case.get("hist_manual"):
@@ -535,7 +608,7 @@ def obs_sources(c, xy, where):
     return g
 
 
-def total_groups(errs, covs, where, extra=None):
+def total_groups(errs, covs, where, extra=None, obs="total_error"):
     """total uncertainties: vectors relative 1e-15, matrices additionally 1e-15 of the largest variance (a total is a sum of
     sources, each of which may have been re-derived once; cancellation between sources must not be held against the file format)"""
     e, c = dict(extra or {}), {}
@@ -548,7 +621,7 @@ def total_groups(errs, covs, where, extra=None):
         e["exception"] = type(ex).__name__
     sc = max([float(np.max(np.abs(np.diag(m)))) for m in c.values() if m is not None and np.ndim(m) == 2 and np.size(m)] + [0.0])
     se = max([float(np.max(np.abs(v))) for k, v in e.items() if isinstance(v, np.ndarray) and v.size] + [0.0])
-    return [("total_error", e, RT, RT * se, where), ("total_error", c, RT, RT * sc, where)]
+    return [(obs, e, RT, RT * se, where), (obs, c, RT, RT * sc, where)]
 
 
 def obs_container(c, where="", model=False):
@@ -810,11 +883,40 @@ def scale_op(op, s, sx=1.0):
         return [k, op[1], op[2] * s, op[3] * s]
     if k == "set_parameter_values":
         return [k, {n: v * s for n, v in op[1].items()}]
+    if k == "set_all_parameter_values":
+        return [k, [v * s for v in op[1]]]
     return op
 
 
-def gen_sources(rng, n, ftype, yscale, nsrc, prefix="s", fit=False, first_safe=False, rich=False):
+def nearly_constant(v, tol_abs=1e-8, tol_rel=1e-5):
+    """a vector that is NOT constant although every entry agrees with the first one to ~5 digits or ~8 decimals"""
+    if not isinstance(v, (list, tuple)) or len(set(v)) < 2:
+        return False
+    a = np.asarray(v, dtype=float)
+    return bool(np.all(np.abs(a - a[0]) <= tol_abs + tol_rel * abs(a[0])))
+
+
+def make_nearly_constant(rng, v, mode):
+    """input class 'pointwise uncertainties that differ although they are close to each other': 'tiny' = all of order 1e-11
+    (SI units: nF, ns, nm; every entry differs from the others by a factor of order one), 'spread' = any magnitude, entries
+    differing in the 6th..7th digit (one instrument, slightly different ranges)"""
+    n = len(v)
+    if mode == "tiny":
+        out = [float(x) for x in np.asarray(v, dtype=float) * 1e-10]
+        if len(set(out)) < 2:
+            out = [out[0] * (1.0 + 0.25 * (i % 3)) for i in range(n)]
+        return out
+    e0 = float(max(v)) if max(v) > 0 else 0.1
+    u = rng.uniform(-1.0, 1.0, size=n)
+    u[0], u[-1] = 0.3, -0.7  # never constant
+    return [float(e0 * (1.0 + 2e-6 * x)) for x in u]
+
+
+def gen_sources(rng, n, ftype, yscale, nsrc, prefix="s", fit=False, first_safe=False, rich=False, near=None):
+    """`near`: force the source after the safe one to be a simple pointwise vector of the nearly-constant class ('tiny' | 'spread');
+    otherwise every 5th varying vector (simple source or the uncertainties of a correlation-matrix source) is moved into that class"""
     ops = []
+    near_k = (1 if first_safe else 0) if near else None
     rich_forces = [
         {"axis": "y", "kind": "simple", "reference": "data", "relative": False, "shape": "vec", "corr": 0.0},
         {"axis": "x", "kind": "simple", "reference": "model" if fit else "data", "relative": True, "shape": "scalar"},
@@ -831,7 +933,20 @@ def gen_sources(rng, n, ftype, yscale, nsrc, prefix="s", fit=False, first_safe=F
             force = {"reference": "data", "relative": False}
             if ftype == "xy":
                 force["axis"] = "y"
-        ops.append(gen.gen_source(rng, n, ftype, "%s%d" % (prefix, k), yscale=yscale, xscale=0.1, allow_model=fit, allow_x=(ftype == "xy"), force=force))
+        if k == near_k:
+            force = {"kind": "simple", "shape": "vec", "relative": False, "reference": "data", "corr": 0.0}
+            if ftype == "xy":
+                force["axis"] = "y"
+        op = gen.gen_source(rng, n, ftype, "%s%d" % (prefix, k), yscale=yscale, xscale=0.1, allow_model=fit, allow_x=(ftype == "xy"), force=force)
+        fld = "err" if op[0] == "add_error" else ("err_val" if op[1].get("matrix_type") == "cor" else None)
+        v = op[1].get(fld) if fld else None
+        safe = first_safe and k == 0  # the source that keeps a fit well posed stays as generated
+        if isinstance(v, list) and len(v) > 1 and not safe and (k == near_k or (near_k is None and len(set(v)) > 1 and rng.random() < 0.2)):
+            mode = near if k == near_k else str(rng.choice(["tiny", "spread"]))
+            if 0.0 in v or fld == "err_val":
+                mode = "spread"  # a zero entry is not close to the others; correlation matrices keep uncertainties of usable size
+            op = [op[0], dict(op[1], **{fld: make_nearly_constant(rng, v, mode)})]
+        ops.append(op)
     return ops
 
 
@@ -891,7 +1006,7 @@ def gen_container(rng, ctype, tier, force):
     if case["ctype"] == "unbinned":
         nsrc = 0
     ftype = case["ctype"]
-    srcs = [scale_source(conv_source(op), sx, sy if ftype != "hist" else 1.0) for op in gen_sources(rng, n, ftype, ys, nsrc, rich=bool(force.get("rich")))]
+    srcs = [scale_source(conv_source(op), sx, sy if ftype != "hist" else 1.0) for op in gen_sources(rng, n, ftype, ys, nsrc, rich=bool(force.get("rich")), near=force.get("near"))]
     case["sources"] = srcs
     case["disabled"] = [s["name"] for i, s in enumerate(srcs) if (force.get("rich") and i == 3) or (not force.get("rich") and rng.random() < 0.3)]
     case.update(gen_labels(rng))
@@ -1017,10 +1132,18 @@ def gen_par_ops(rng, pnames, pvals, force):
             op = [op[0], a]
         ops.append(op)
     fixed = None
-    if len(pnames) >= 2 and (rich or rng.random() < 0.3):
+    if len(pnames) >= 2 and (rich or force.get("refix") or rng.random() < 0.3):
         i = int(rng.integers(0, len(pnames)))
         fixed = pnames[i]
         ops.append(["fix_parameter", fixed, None if rng.random() < 0.4 else _r(pvals[i] * rng.uniform(0.9, 1.1) + 0.01, 5)])
+        if rich or force.get("refix") or rng.random() < 0.45:
+            # the value of an already fixed parameter is changed (it stays fixed, at the new value), by name or with all values at once
+            v2 = _r(pvals[i] * rng.uniform(1.15, 1.4) + 0.05, 5)
+            by_name = False if rich else (True if force.get("refix") else rng.random() < 0.5)
+            if by_name:
+                ops.append(["set_parameter_values", {fixed: v2}])
+            else:
+                ops.append(["set_all_parameter_values", [v2 if n == fixed else float(pvals[j]) for j, n in enumerate(pnames)]])
     if rich or rng.random() < 0.3:
         i = int(rng.integers(0, len(pnames)))
         v = pvals[i]
@@ -1030,6 +1153,46 @@ def gen_par_ops(rng, pnames, pvals, force):
         n = free[int(rng.integers(0, len(free)))]
         ops.append(["set_parameter_values", {n: _r(pvals[pnames.index(n)] * rng.uniform(0.92, 1.08) + 0.003, 6)}])
     return ops
+
+
+def gen_post_ops(rng, ftype, ops, pnames, pvals, n, ys, rich):
+    """operations applied, after the round trip, to the original AND to the reloaded fit (which must follow them alike): sources
+    switched off / on / off again, a new source (data or model reference), parameter values / fixing / releasing"""
+    post = []
+    fixed = [op[1] for op in ops if op[0] == "fix_parameter"]
+    if ftype not in ("custom", "unbinned"):
+        srcs = [op[1] for op in ops if op[0] in ("add_error", "add_matrix_error")]
+        disabled = set(op[1] for op in ops if op[0] == "disable_error")
+        for a in srcs[1:]:  # the first source keeps the fit well posed: never switched off
+            if rich or rng.random() < 0.6:
+                post.append(["enable_error" if a["name"] in disabled else "disable_error", a["name"]])
+        if post and (rich or rng.random() < 0.5):
+            k, name = post[0] if rich else post[int(rng.integers(0, len(post)))]
+            post.append(["disable_error" if k == "enable_error" else "enable_error", name])
+        if rich or rng.random() < 0.6:
+            f = {"kind": "simple", "reference": "model"} if rich else None
+            post.append(gen.gen_source(rng, n, ftype, "q0", yscale=ys, xscale=0.1, allow_model=True, allow_x=(ftype == "xy"), force=f))
+    free = [q for q in pnames if q not in fixed]
+    if free and rng.random() < 0.5:
+        q = free[int(rng.integers(0, len(free)))]
+        post.append(["set_parameter_values", {q: _r(pvals[pnames.index(q)] * rng.uniform(0.95, 1.05) + 0.002, 6)}])
+    if fixed and rng.random() < 0.4:
+        post.append(["release_parameter", fixed[0]])
+    elif len(free) >= 2 and rng.random() < 0.3:
+        post.append(["fix_parameter", free[int(rng.integers(0, len(free)))], None])
+    return post
+
+
+def gen_cost_object(rng, ftype, fid, how):
+    """the cost function handed over as an object: 'default' = only the arguments that select the formula, 'nondefault' = 1-2 of the
+    documented options of the class set to their non-default value"""
+    co = {"fid": fid, "options": {}}
+    opts = cost_options_for(ftype, fid)
+    if how == "nondefault" and opts:
+        names = sorted(opts)
+        for i in rng.choice(len(names), size=min(len(names), int(rng.integers(1, 3))), replace=False):
+            co["options"][names[int(i)]] = opts[names[int(i)]]
+    return co
 
 
 def gen_fit(rng, ftype, stage, tier, force):
@@ -1047,7 +1210,9 @@ def gen_fit(rng, ftype, stage, tier, force):
         q = gen.gen_psd(rng, npar, scale=float(rng.uniform(1.0, 5.0)), kind="dense")
         case["custom"] = {"name": "my_cost", "names": names, "defaults": [d * s for d in defaults], "centre": [c * s for c in centre], "Q": _mul(_mul(q.tolist(), 1.0 / s), 1.0 / s)}
         case["scale"] = k
-        case["ops"] = [scale_op(op, s) for op in gen_par_ops(rng, names, centre, force)]
+        pops = gen_par_ops(rng, names, centre, force)
+        case["ops"] = [scale_op(op, s) for op in pops]
+        case["post_ops"] = [scale_op(op, s) for op in gen_post_ops(rng, ftype, pops, names, centre, 0, 1.0, False)]
         case["refit"] = bool(force or rng.random() < 0.5)
         return case
     cost = "nll" if ftype == "unbinned" else random_cost(rng, ftype, force)
@@ -1107,7 +1272,9 @@ def gen_fit(rng, ftype, stage, tier, force):
         rich = bool(force.get("rich"))
         need = fid in NEEDS_ERRORS
         nsrc = 4 if rich else (int(rng.integers(1, 4)) if need else int(rng.integers(0, 3)))
-        sops = gen_sources(rng, n, ftype, ys, nsrc, prefix="e", fit=True, first_safe=True, rich=rich)
+        if force.get("near"):
+            nsrc = max(nsrc, 2)
+        sops = gen_sources(rng, n, ftype, ys, nsrc, prefix="e", fit=True, first_safe=True, rich=rich, near=force.get("near"))
         ops.extend(sops)
         if rich:
             ops.append(["disable_error", "e3"])
@@ -1117,6 +1284,11 @@ def gen_fit(rng, ftype, stage, tier, force):
     if not case.get("library") and rng.random() < 0.25:
         ops.append(["fmt", {"latex_name": "f_{%d}" % int(rng.integers(0, 9)), "par_latex": {pnames[0]: "\\alpha_0"}, "latex_expression": None if ftype == "indexed" else "{%s} \\cdot {x}" % pnames[0], "expression": None if ftype == "indexed" else "{%s} * {x}" % pnames[0]}])
     case["ops"] = [scale_op(op, s) for op in ops]
+    case["post_ops"] = [scale_op(op, s) for op in gen_post_ops(rng, ftype, ops, pnames, pvals, n, ys, bool(force.get("rich")))]
+    if ftype != "unbinned" and fid in COST_BASE:
+        how = force.get("cost_object") or (str(rng.choice(["default", "nondefault"])) if (not force and rng.random() < 0.16) else None)
+        if how:
+            case["cost_object"] = gen_cost_object(rng, ftype, fid, how)
     if rng.random() < 0.5:
         case["labels"] = gen_labels(rng, model=True)
     case["refit"] = bool(force or rng.random() < 0.5)
@@ -1157,8 +1329,14 @@ def _plan():
         ("container", "xy", None, {"rich": True, "nsrc": 4, "scale": -9}),
         ("container", "indexed", None, {"rich": True, "nsrc": 4, "scale": 9}),
         ("container", "hist-manual", None, {"rich": True, "nsrc": 4}),
+        ("container", "xy", None, {"near": "tiny", "nsrc": 2, "scale": 0}),
+        ("fit", "xy", "unfitted", {"cost_object": "default", "cost": "chi2", "family": "poly1", "refix": True, "scale": 0}),
         ("wwr", "container", None, {}),
+        ("fit", "xy", "unfitted", {"cost_object": "nondefault", "cost": "chi2", "family": "poly1", "scale": 0}),
+        ("container", "indexed", None, {"near": "spread", "nsrc": 2}),
         ("wwr", "fit", None, {}),
+        ("fit", "indexed", "fitted", {"near": "spread", "cost": "chi2", "family": "poly1", "refix": True, "scale": 0}),
+        ("fit", "hist", "fitted", {"cost_object": "default", "cost": "nll_poisson"}),
         ("state", "unfitted", None, {}),
         ("state", "fitted", None, {}),
         ("wwr", "container", None, {}),
@@ -1246,6 +1424,8 @@ def _src_features(s, f, model_ref=False, ref=None):
         st.add("source-varying-vector")
         disc.append("varying error vector")
         f["vectors"][s["name"]] = list(v)
+        if nearly_constant(v):
+            st.add("source-nearly-constant-vector")
 
 
 def reference_values(case):
@@ -1350,11 +1530,29 @@ def features(case):
             elif op[0] == "fix_parameter":
                 f["strata"].add("parameter-fixed")
                 f["disc"].append("fixed parameter")
+                f.setdefault("fixed_names", set()).add(op[1])
+            elif op[0] == "set_all_parameter_values":
+                f["disc"].append("parameter != default")
+                if f.get("fixed_names"):
+                    f["strata"].add("fixed-value-changed-after-fixing")
             elif op[0] == "limit_parameter":
                 f["strata"].add("parameter-limited")
                 f["disc"].append("limits lower != -upper")
             elif op[0] == "set_parameter_values":
                 f["disc"].append("parameter != default")
+                if set(op[1]) & f.get("fixed_names", set()):
+                    f["strata"].add("fixed-value-changed-after-fixing")
+        model_sources = set(op[1]["name"] for op in case["ops"] if op[0] in ("add_error", "add_matrix_error") and op[1].get("reference") == "model")
+        for op in case.get("post_ops", []):
+            if op[0] in ("disable_error", "enable_error"):
+                f["strata"].add("post-load-model-source-toggled" if op[1] in model_sources else "post-load-source-toggled")
+            elif op[0] in ("add_error", "add_matrix_error"):
+                f["strata"].add("post-load-source-added")
+        co = case.get("cost_object")
+        if co:
+            f["strata"].add("cost-object-nondefault-options" if co.get("options") else "cost-object-default-options")
+            f["cost_options"] = dict(co.get("options", {}))
+            f["sets"].setdefault("cost_option", set()).update(co.get("options", {}))
         if case.get("dea") == "iterative" and case["ftype"] != "custom":
             f["strata"].add("dea-iterative")
         if case.get("hist_manual"):
@@ -1510,6 +1708,13 @@ def _classify(h, obs, wit):
     # -- Gauss approximation cost: identifier written is the method name, which the reader does not know
     if kind == "fit" and obs == "from_file" and f.get("fid") in GAUSS_APPROX and wit.get("exc_type") == "NameError" and "gaussian_approximation" in exc:
         return "C09/gauss-approximation-cost-identifier-unknown-to-reader"
+    # -- cost function given as an object: only its identifier (formula [+ "_fast"]) is written, the documented options of the class
+    #    (add_determinant_cost, add_constraint_cost, fallback_on_singular, axes_to_use, fast_math where no "_fast" identifier exists)
+    #    come back as the defaults.  Holds only if the attribute that differs belongs to an option the case set to its non-default value.
+    if kind == "fit" and obs == "cost_function" and f.get("cost_options") and exp != got:
+        attr = path.split("[")[0]
+        if any(attr in COST_OPTION_PATHS[o] for o in f["cost_options"]):
+            return "C09/cost-function-options-not-stored"
     # -- dynamic_error_algorithm is not part of the file format
     if obs == "dynamic_error_algorithm" and exp == "iterative" and got == "nonlinear":
         return "C09/dynamic-error-algorithm-not-stored"
@@ -1704,6 +1909,58 @@ def refit(h, fit, re, case):
     if abs(ca - cb) > tc + 1e-9 * abs(ca):
         bad.append(["cost", ca, cb])
     h.verdict("refit", not bad, {"differences": bad, "sigma_tolerance": ts, "cost_tolerance": tc, "original": pa, "reloaded": pb, "path": "refit", "expected": ca, "got": cb})
+    return True
+
+
+def obs_fit_after_op(fit, where):
+    """what a further operation on a fit changes: enabled flags, total uncertainties, parameter state, cost"""
+    g = []
+    if not isinstance(fit, (CustomFit, UnbinnedFit)):
+        en = {}
+        for tag, c in (("data", fit.data_container), ("model", fit._param_model)):
+            for n in sorted(c.get_matching_errors()):
+                en["%s.%s" % (tag, n)] = bool(c.get_error(n)["enabled"])
+        g.append(("post.sources", en, 0.0, 0.0, where))
+        g.extend(total_groups({"total_error": lambda: fit.total_error}, {"total_cov_mat": lambda: fit.total_cov_mat, "data_cov_mat": lambda: fit.data_cov_mat, "model_cov_mat": lambda: fit.model_cov_mat}, where, obs="post.total_error"))
+    p = np.array(fit.parameter_values, dtype=float)
+    st = {"values": p, "fixed": dict(fit._fitter.fixed_parameters), "limits": {k: list(v) for k, v in fit._fitter.limited_parameters.items()}}
+    g.append(("post.parameters", st, 0.0, 0.0, where))
+    cc = [float(c.cost(p)) for c in fit.parameter_constraints]
+    g.append(("post.cost", float(fit.cost_function_value), LIN[0], LIN[1] + LIN[0] * sum(abs(x) for x in cc), where))
+    return g
+
+
+def post_stage(h, fit, re, case, cur):
+    """original and reloaded fit receive the same further operations; after each one both are observed"""
+    ctx = h.ctx
+    spec = case.get("spec") or {"type": "custom"}
+    try:
+        fit.set_all_parameter_values(cur)
+        re.set_all_parameter_values(cur)
+    except Exception:
+        ctx.discard("post-stage-parameters-not-restorable")
+        return
+    for k, op in enumerate(case["post_ops"]):
+        if not h.alive:
+            return
+        where = "post%d.%s." % (k, op[0])
+        try:
+            with time_limit(30.0):
+                dsl.apply_live(fit, spec, op)
+                ga = obs_fit_after_op(fit, where)
+        except (Exception, OpTimeout):
+            ctx.discard("post-op-failed-on-original")
+            return
+        ctx.op("post." + op[0])
+        if h.call("post.op", lambda: dsl.apply_live(re, spec, op) or True, where=where) is None:
+            return
+        try:
+            gb = obs_fit_after_op(re, where)
+        except Exception as e:
+            h.verdict("post.cost", False, {"where": where, "exception": "%s: %s" % (type(e).__name__, str(e)[:300]), "traceback": fmt_exc(), "path": "observation"})
+            return
+        if not h.groups(ga, gb):
+            return
 
 
 def run_fit(ctx, h, case, tmp, tag):
@@ -1740,8 +1997,9 @@ def run_fit(ctx, h, case, tmp, tag):
         return
     fit.set_all_parameter_values(cur)
     re.set_all_parameter_values(cur)
-    if case.get("refit"):
-        refit(h, fit, re, case)
+    done = refit(h, fit, re, case) if case.get("refit") else True
+    if done and h.alive and case.get("post_ops"):
+        post_stage(h, fit, re, case, cur)
 
 
 def run_wwr(ctx, h_factory, case, tmp):
